@@ -52,24 +52,44 @@ def call_real(inp):
         if v == "multi":
             return generate_multiconfmaps(pts, (H, W), num_instances=ninst, sigma=sigma, output_stride=s, is_centroids=False)
         return generate_multiconfmaps(pts[:, :, 0], (H, W), num_instances=ninst, sigma=sigma, output_stride=s, is_centroids=True)
-    ex = {"image": torch.zeros((len(samples), 1, H, W))}
+    # The DataPipe classes consume a STREAM of examples: the judged example is alone (spos 0), first of two
+    # (spos 1) or second after an example of another image size and other keypoints (spos 2).
+    spos = inp.get("spos", 0)
+    H2, W2 = H + s * (1 + (W // s) % 2), max(s, W - s)
+
+    def example(h, w, p):
+        ex = {"image": torch.zeros((len(samples), 1, h, w))}
+        if v == "single":
+            ex["instances"] = p
+        elif v == "multi":
+            ex["instances"] = p[:, :ninst]           # the DataPipe takes every animal it is given
+        else:
+            ex["centroids"] = p[:, :, 0]
+            ex["num_instances"] = ninst
+        return ex
+
+    other = example(H2, W2, torch.flip(pts, dims=[-1]) * 0.5 + 1.0)
+    stream = {0: [example(H, W, pts)], 1: [example(H, W, pts), other], 2: [other, example(H, W, pts)]}[spos]
     if v == "single":
-        ex["instances"] = pts
-        dp = ConfidenceMapGenerator([ex], sigma=sigma, output_stride=s)
-        return next(iter(dp))["confidence_maps"]
-    if v == "multi":
-        ex["instances"] = pts[:, :ninst]           # the DataPipe takes every animal it is given
-        dp = MultiConfidenceMapGenerator([ex], sigma=sigma, output_stride=s, centroids=False)
-        return next(iter(dp))["confidence_maps"]
-    ex["centroids"] = pts[:, :, 0]
-    ex["num_instances"] = ninst
-    dp = MultiConfidenceMapGenerator([ex], sigma=sigma, output_stride=s, centroids=True)
-    return next(iter(dp))["centroids_confidence_maps"]
+        dp = ConfidenceMapGenerator(stream, sigma=sigma, output_stride=s)
+    else:
+        dp = MultiConfidenceMapGenerator(stream, sigma=sigma, output_stride=s, centroids=(v == "centroid"))
+    outs = list(dp)
+    if len(outs) != len(stream):
+        raise AssertionError("stream of %d examples gave %d outputs" % (len(stream), len(outs)))
+    return outs[1 if spos == 2 else 0]["centroids_confidence_maps" if v == "centroid" else "confidence_maps"]
+
+
+_PIPE_N = [0]
 
 
 def make_input(fam, variant, api, H, W, s, sig, nodes, samples, ninst, bidx=0):
+    spos = 0
+    if api == "pipe":
+        _PIPE_N[0] += 1
+        spos = _PIPE_N[0] % 3
     return dict(fam=fam, variant=variant, api=api, H=H, W=W, s=s, sn=sig[0], sd=sig[1], nodes=nodes,
-                samples=samples, ninst=ninst, bidx=bidx)
+                samples=samples, ninst=ninst, bidx=bidx, spos=spos)
 
 
 def observe(inputs):
@@ -254,6 +274,8 @@ def count_clauses(res, cases):
         if c["batch"] > 1:
             res.clause("case_with_two_samples")
         res.clause("api_" + c["api"])
+        if c["api"] == "pipe":
+            res.clause("pipe_stream_position_%d" % c.get("spos", 0))
         res.clause("variant_" + c["variant"])
         res.clause("stride_%d" % c["s"])
 
@@ -270,7 +292,7 @@ def judge_round(res, name, inputs, note, stats):
     stats["rejected"] = stats.get("rejected", 0) + j["rejected_n"]
     for cid, clause in j["rejected"]:
         c = cases[int(cid)]
-        res.violation(key_of(c, clause), clause, {k: c[k] for k in ("fam", "variant", "api", "H", "W", "s", "sn", "sd", "nodes", "samples", "ninst", "bidx")},
+        res.violation(key_of(c, clause), clause, {k: c[k] for k in ("fam", "variant", "api", "H", "W", "s", "sn", "sd", "nodes", "samples", "ninst", "bidx", "spos")},
                       "%s(%s) %dx%d stride %d sigma %d/%d pts=%s num_instances=%d sample %d of %d: %s" % (
                           where_of(c), c["api"], c["H"], c["W"], c["s"], c["sn"], c["sd"], json.dumps(c["samples"]), c["ninst"],
                           c["bidx"], c["batch"], c["raised"] or clause))
@@ -338,6 +360,7 @@ def run(tier, seed):
         "values < 1e-30 (float32 denormals) and exact zeros are accepted only where D16 > 60 * 32 sigma^2 s^2 (v < e^-60)",
         "arg-max set = cells within 1e-6 (relative) of the channel maximum; compared with the cells of minimal D16 when that minimum is <= 60 * 32 sigma^2 s^2",
         "num_instances slice: animals beyond num_instances hold ordinary coordinates in the test (the pipeline pads with NaN)",
+        "DataPipe generators are fed streams: the judged example alone, first of two, or second after an example of another image size and other keypoints",
     ]
     return res
 
